@@ -85,9 +85,9 @@ mut("boxed_raw_read_uses_try_order", "src/collection/boxed.rs", "\t\tutils::orde
 mut("tuple_get_ptrs_skips", "src/lockable.rs", "\t\t\t\t$(self.$value.get_ptrs(ptrs));*", "\t\t\t\tself.0.get_ptrs(ptrs);", [("C04", "E1")])
 mut("boxslice_guard_reversed", "src/lockable.rs", "\t\tself.iter().map(|lock| lock.guard()).collect()", "\t\tself.iter().rev().map(|lock| lock.guard()).collect()",
     [("C02", "P1"), ("C16", "P1")])
-mut("windows_to_chunks", "src/collection/utils.rs", "\tl.windows(2)", "\tl.chunks(2)", [("C07", "N3")])
+mut("windows_to_chunks", "src/collection/utils.rs", "\tl.windows(2)", "\tl.chunks(2)", [("C07", "N1")])
 mut("addr_eq_to_ptr_eq", "src/collection/utils.rs", ".any(|window| std::ptr::addr_eq(window[0], window[1]))", ".any(|window| std::ptr::eq(window[0], window[1]))",
-    [("C07", "N3")])
+    [("C07", "N1")])
 mut("boxed_try_new_unchecked", "src/collection/boxed.rs", "\t\t\tif ordered_contains_duplicates(this.locks()) {\n\t\t\t\treturn None;\n\t\t\t}\n", "", [("C07", "N1")])
 mut("owned_for_shared_ref", "src/lockable.rs", "unsafe impl<T: OwnedLockable> OwnedLockable for &mut T {}",
     "unsafe impl<T: OwnedLockable> OwnedLockable for &mut T {}\nunsafe impl<T: OwnedLockable> OwnedLockable for &T {}", [("C07", "N4")])
